@@ -18,8 +18,8 @@ from sx import rt
 from sx.core import ctx
 from sx.terms import DIGIT, LOWER, UPPER, PChar, category_ranges, complement, intersect_ranges, merge_ranges, seg_lookup, stable_other_domain, upper_tables
 
-BOUNDS = {"quick": {"countries": "one per table signature (with positions) + 2 without positions + unknown country", "lengths": "one component varied at a time over 0..width+2 (others at full width), plus the combined bank+branch width; seeded subset of 6 lengths per component", "alphabet": "ASCII digits, ASCII letters of either case and every upper-case-stable code point; whitespace, expanding and non-ASCII case-changing code points are covered by Lemma N on clean() only"},
-          "thorough": {"countries": "all", "lengths": "every component 0..width+2 one at a time, plus 12 seeded full triples per country", "alphabet": "as quick"}}
+BOUNDS = {"quick": {"countries": "the 19 computing countries + DE, GB + 8 seeded others with positions + 2 without positions + unknown country", "lengths": "full widths; each component one shorter / one longer (others full); empty branch; combined bank+branch width", "alphabet": "ASCII digits, ASCII letters of either case and every upper-case-stable code point; whitespace, expanding and non-ASCII case-changing code points are covered by Lemma N on clean() only"},
+          "thorough": {"countries": "all", "lengths": "every component 0..width+2 one at a time (others full), combined width, plus 12 seeded triples per country", "alphabet": "as quick"}}
 STUBS = ["str.zfill incl. sign rule", "as C01"]
 ASSUMPTIONS = ["a bank code of combined bank+branch width supplied together with a non-empty branch code is outside the claim (the statement does not say which of the two conflicting inputs wins)",
                "whitespace, expanding and non-ASCII case-changing code points inside components: clean() is covered by Lemma N (C01/C04), their images are then ordinary characters of the alphabet used here"]
@@ -45,9 +45,15 @@ def widths(cc):
 
 
 def jobs(tier, seed):
+    from harness.c09 import COMPUTING
+
     rnd = random.Random(seed)
     out = []
-    ccs = [c for c in H.country_jobs(tier, seed)]
+    if tier == "thorough":
+        ccs = sorted(table.countries())
+    else:
+        withpos = [c for c in H.country_jobs(tier, seed) if table.positions(c) and c not in COMPUTING]
+        ccs = sorted(set(COMPUTING) | set(rnd.sample(withpos, 8)) | {"DE", "GB"}) + ["AO", "IR"]
     for cc in ccs:
         if not table.positions(cc):
             out.append({"cc": cc, "lens": [[1, 1, 0]]})
@@ -56,12 +62,12 @@ def jobs(tier, seed):
         full = [w["bank_code"], w["account_code"], w["branch_code"]]
         triples = {tuple(full)}
         for i, k in enumerate(("bank_code", "account_code", "branch_code")):
-            cand = list(range(0, w[k] + 3))
-            if i == 0:
+            if tier == "thorough":
+                cand = list(range(0, w[k] + 3))
+            else:
+                cand = [max(0, w[k] - 1), w[k] + 1] + ([0] if i == 2 else [])
+            if i == 0 and w["branch_code"]:
                 cand.append(w["bank_code"] + w["branch_code"])
-            if tier != "thorough" and len(cand) > 6:
-                keep = {0, w[k], w[k] + 1, w[k] + 2, w["bank_code"] + w["branch_code"] if i == 0 else 0}
-                cand = sorted(keep | set(rnd.sample(cand, 2)))
             for n in cand:
                 t = list(full)
                 t[i] = n
@@ -71,9 +77,8 @@ def jobs(tier, seed):
         if tier == "thorough":
             for _ in range(12):
                 triples.add((rnd.randint(0, w["bank_code"] + 2), rnd.randint(0, w["account_code"] + 2), rnd.randint(0, w["branch_code"] + 2)))
-        tl = sorted(triples)
-        for i in range(0, len(tl), 6):
-            out.append({"cc": cc, "lens": [list(t) for t in tl[i : i + 6]]})
+        for t in sorted(triples):
+            out.append({"cc": cc, "lens": [list(t)]})
     out.append({"cc": "ZZ", "lens": [[2, 2, 0]]})
     return out
 
